@@ -392,8 +392,8 @@ def ops_C10(T, tvs, tier):
                     lambda T, tvs: strip(tvs)))
         out.append(("with_field(x, x[k0], 'new')", lambda arr: tl(a.with_field(arr, arr[keys[0]], "new")),
                     lambda T, tvs: [dict(list(strip(v).items()) + [("new", strip(v)[keys[0]])]) for v in tvs]))
-        out.append(("with_field(x, 7, k0) replaces", lambda arr: tl(a.with_field(arr, 7, keys[0])),
-                    lambda T, tvs: [with_replaced(strip(v), keys[0], 7) for v in tvs]))
+        out.append(("with_field(x, 7, k0) replaces", lambda arr: sortkeys(tl(a.with_field(arr, 7, keys[0]))),
+                    lambda T, tvs: sortkeys([with_replaced(strip(v), keys[0], 7) for v in tvs])))
         out.append(("x['new'] = ... (setitem)", lambda arr: setitem(a, arr, keys[0]),
                     lambda T, tvs: [dict(list(strip(v).items()) + [("new", strip(v)[keys[0]])]) for v in tvs]))
     out.append(("x[[keys reversed]]", lambda arr: tl(arr[list(reversed(keys))]),
@@ -407,6 +407,14 @@ def with_replaced(d, k, v):
     out = dict(d)
     out[k] = v
     return out
+
+
+def sortkeys(v):
+    if isinstance(v, dict):
+        return {k: sortkeys(v[k]) for k in sorted(v)}
+    if isinstance(v, list):
+        return [sortkeys(x) for x in v]
+    return v
 
 
 def setitem(a, arr, k):
